@@ -179,19 +179,20 @@ structure AShape where
   imm   : Bytes
   isLea : Bool
   moffs : Option (BitVec 8 × Nat) := none   -- `mov al|ax|eax|rax <-> [moffs]`: opcode A0..A3 of the ModRM-less form, register size
+  seg   : Option (BitVec 8) := none         -- FS / GS segment override prefix (64h / 65h), emitted first (`emit_segment_override`)
   deriving Repr, Inhabited
 
 def modrm (mod reg rm : BitVec 8) : BitVec 8 := (mod <<< 6) ||| (reg <<< 3) ||| rm
 def rexBytes : Option (BitVec 8) → Bytes
   | some r => [r] | none => []
 
-/-- `x86_should_use_movabs` (no segment override, no ModMR/ModRM option in the menu) -/
-def shouldUseMovabs (s : State) (regSize : Nat) (at_ : AddrT) (addr : BitVec 64) : Bool :=
+/-- `x86_should_use_movabs` (no ModMR/ModRM option in the menu); `hasSeg` = `rm_rel.has_segment()` -/
+def shouldUseMovabs (s : State) (regSize : Nat) (at_ : AddrT) (addr : BitVec 64) (hasSeg : Bool := false) : Bool :=
   if s.arch.is32 then true else
   if at_ = .rel then false else
   let addrI32 : Bool := (addr.truncate 32 : BitVec 32).signExtend 64 == addr
   let direct : Bool :=
-    match (if at_ = .dflt then absLocation s else none) with
+    match (if at_ = .dflt ∧ hasSeg = false then absLocation s else none) with
     | some (base, so) =>
       let instSize := (if regSize = 2 then 1 else 0) + (if regSize = 8 then 1 else 0) + 1 + 8
       isInt32 (addr - (base + so + BitVec.ofNat 64 s.curOff + BitVec.ofNat 64 instSize))
@@ -206,7 +207,7 @@ def x86MemAbsM (s : State) (sh : AShape) (at_ : AddrT) (addr : BitVec 64) : Stat
   let lo : BitVec 32 := addr.truncate 32
   if s.arch.is32 then
     if at_ = .rel then (s, .invalidAddress) else
-    (s.emit (sh.pp ++ sh.opc ++ [modrm 0 sh.opReg 5] ++ leBytes lo.toNat 4 ++ sh.imm), .ok)
+    (s.emit (rexBytes sh.seg ++ sh.pp ++ sh.opc ++ [modrm 0 sh.opReg 5] ++ leBytes lo.toNat 4 ++ sh.imm), .ok)
   else
     let isI32 : Bool := lo.signExtend 64 == addr
     let isU32 : Bool := lo.zeroExtend 64 == addr
@@ -214,9 +215,9 @@ def x86MemAbsM (s : State) (sh : AShape) (at_ : AddrT) (addr : BitVec 64) : Stat
       if at_ = .dflt then
         match absLocation s with
         | some _ => if isI32 || isU32 then .abs else .rel
-        | none => if sh.isLea && (isI32 || isU32) then .abs else .rel      -- (no FS/GS override in the menu)
+        | none => if sh.seg.isSome || (sh.isLea && (isI32 || isU32)) then .abs else .rel      -- "Prefer absolute addressing mode if FS|GS segment override is present."
       else at_
-    let leadRel := sh.pp ++ rexBytes sh.rex ++ sh.opc ++ [modrm 0 sh.opReg 5]
+    let leadRel := rexBytes sh.seg ++ sh.pp ++ rexBytes sh.rex ++ sh.opc ++ [modrm 0 sh.opReg 5]
     let absForm : State × Err :=
       if !isI32 && !isU32 then (s, .invalidAddress64Bit) else
       let pre : Bytes :=
@@ -227,7 +228,7 @@ def x86MemAbsM (s : State) (sh : AShape) (at_ : AddrT) (addr : BitVec 64) : Stat
           | some r => let r' := r &&& 0xF7#8; if r' = 0x40#8 then sh.pp else sh.pp ++ [r']
           | none => sh.pp
         else [0x67#8] ++ sh.pp ++ rexBytes sh.rex             -- "Insert address-size override prefix."
-      (s.emit (pre ++ sh.opc ++ [modrm 0 sh.opReg 4, 0x25#8] ++ leBytes lo.toNat 4 ++ sh.imm), .ok)
+      (s.emit (rexBytes sh.seg ++ pre ++ sh.opc ++ [modrm 0 sh.opReg 4, 0x25#8] ++ leBytes lo.toNat 4 ++ sh.imm), .ok)
     if at1 = .rel then
       match absLocation s with
       | none =>
@@ -237,7 +238,7 @@ def x86MemAbsM (s : State) (sh : AShape) (at_ : AddrT) (addr : BitVec 64) : Stat
         let (s1, _) := newReloc s re
         (s1.emit (leadRel ++ zeros 4 ++ sh.imm), .ok)
       | some (base, so) =>
-        let virtualOffset := s.curOff + (sh.pp ++ rexBytes sh.rex ++ sh.opc).length + sh.imm.length + 5
+        let virtualOffset := s.curOff + (rexBytes sh.seg ++ sh.pp ++ rexBytes sh.rex ++ sh.opc).length + sh.imm.length + 5
         let rel64 := addr - (base + so + BitVec.ofNat 64 virtualOffset)
         if isInt32 rel64 then (s.emit (leadRel ++ leBytes (rel64.truncate 32).toNat 4 ++ sh.imm), .ok)
         else if at_ = .rel then (s, .invalidAddress)
@@ -249,8 +250,8 @@ def x86MemAbsM (s : State) (sh : AShape) (at_ : AddrT) (addr : BitVec 64) : Stat
 def x86MemAbs (s : State) (sh : AShape) (at_ : AddrT) (addr : BitVec 64) : State × Err :=
   match sh.moffs with
   | some mo =>
-    if shouldUseMovabs s mo.2 at_ addr then
-      (s.emit (sh.pp ++ rexBytes sh.rex ++ [mo.1] ++ leBytes addr.toNat s.arch.regSize), .ok)
+    if shouldUseMovabs s mo.2 at_ addr sh.seg.isSome then
+      (s.emit (rexBytes sh.seg ++ sh.pp ++ rexBytes sh.rex ++ [mo.1] ++ leBytes addr.toNat s.arch.regSize), .ok)
     else x86MemAbsM s sh at_ addr
   | none => x86MemAbsM s sh at_ addr
 
